@@ -10,6 +10,7 @@ pub mod c10;
 pub mod c11;
 pub mod c12;
 pub mod c13;
+pub mod c14;
 pub mod c15;
 pub mod c16;
 
@@ -49,6 +50,7 @@ pub fn run(ctx: &RunCtx) -> Option<PropResult> {
         "C11" => Some(c11::run(ctx)),
         "C12" => Some(c12::run(ctx)),
         "C13" => Some(c13::run(ctx)),
+        "C14" => Some(c14::run(ctx)),
         "C15" => Some(c15::run(ctx)),
         "C16" => Some(c16::run(ctx)),
         _ => None,
@@ -128,6 +130,7 @@ fn replay_other(ctx: &RunCtx, phase: &str, case: &serde_json::Value, dir: &std::
         "C11" => c11::replay_other(phase, case, dir, &ctx.findings),
         "C12" => c12::replay_other(phase, case, dir, &ctx.findings),
         "C13" => c13::replay_other(phase, case, dir, &ctx.findings),
+        "C14" => c14::replay_other(phase, case, dir, &ctx.findings),
         "C16" => c16::replay_other(phase, case, dir, &ctx.findings),
         _ => None,
     }
